@@ -9,11 +9,13 @@ pub struct Ctx {
     pub len: usize,
     pub buf_base: usize,
     pub buf_len: usize,
+    /// print absolute addresses (`A<addr>`), to be classified later by `fixup`
+    pub abs: bool,
 }
 
 impl Ctx {
     pub fn of(input: &[u8]) -> Ctx {
-        Ctx { base: input.as_ptr() as usize, len: input.len(), buf_base: 0, buf_len: 0 }
+        Ctx { base: input.as_ptr() as usize, len: input.len(), buf_base: 0, buf_len: 0, abs: false }
     }
 }
 
@@ -31,6 +33,9 @@ pub fn pos(ctx: &Ctx, s: &[u8]) -> String {
         return "_".to_string();
     }
     let p = s.as_ptr() as usize;
+    if ctx.abs {
+        return format!("A{}", p);
+    }
     if p >= ctx.base && p + s.len() <= ctx.base + ctx.len {
         format!("{}", p - ctx.base)
     } else if ctx.buf_len > 0 && p >= ctx.buf_base && p + s.len() <= ctx.buf_base + ctx.buf_len {
@@ -93,4 +98,51 @@ pub fn opt<T>(v: &Option<T>, f: impl Fn(&T) -> String) -> String {
 
 pub fn n<T: Into<u64>>(v: T) -> String {
     format!("{}", v.into())
+}
+
+/// replace the `A<addr>` positions printed in `abs` mode by caller-relative offsets, `b<off>` for the
+/// defragmenter's buffer, or `!` when the slice lies in neither
+pub fn fixup(s: &str, ctx: &Ctx) -> String {
+    let b = s.as_bytes();
+    let mut out = String::with_capacity(s.len());
+    let mut i = 0;
+    while i < b.len() {
+        if (b[i] == b'#' || b[i] == b'@') && i + 1 < b.len() && b[i + 1] == b'A' {
+            let kind = b[i];
+            let mut j = i + 2;
+            let mut addr: usize = 0;
+            while j < b.len() && b[j].is_ascii_digit() {
+                addr = addr * 10 + (b[j] - b'0') as usize;
+                j += 1;
+            }
+            // length: for '#': hex digits after ':' / 2 ; for '@': decimal after '+'
+            let mut len = 0usize;
+            if kind == b'#' {
+                let mut k = j + 1;
+                while k < b.len() && b[k].is_ascii_hexdigit() {
+                    k += 1;
+                }
+                len = (k - (j + 1)) / 2;
+            } else {
+                let mut k = j + 1;
+                while k < b.len() && b[k].is_ascii_digit() {
+                    len = len * 10 + (b[k] - b'0') as usize;
+                    k += 1;
+                }
+            }
+            out.push(kind as char);
+            if addr >= ctx.base && addr + len <= ctx.base + ctx.len {
+                out.push_str(&format!("{}", addr - ctx.base));
+            } else if ctx.buf_len > 0 && addr >= ctx.buf_base && addr + len <= ctx.buf_base + ctx.buf_len {
+                out.push_str(&format!("b{}", addr - ctx.buf_base));
+            } else {
+                out.push('!');
+            }
+            i = j;
+        } else {
+            out.push(b[i] as char);
+            i += 1;
+        }
+    }
+    out
 }
